@@ -1633,6 +1633,18 @@ func (s *Store) Request(ctx context.Context, eqr *proto.ExecuteQueryRequest) ([]
 		return nil, 0, 0, err
 	}
 
+	// Resolve AUTO exactly as Query() does: WEAK on a voter, NONE otherwise.
+	if eqr.Level == proto.ConsistencyLevel_AUTO {
+		eqr.Level = proto.ConsistencyLevel_WEAK
+		isVoter, err := s.IsVoter()
+		if err != nil {
+			return nil, 0, 0, err
+		}
+		if !isVoter {
+			eqr.Level = proto.ConsistencyLevel_NONE
+		}
+	}
+
 	nRW, nRO := s.RORWCount(eqr)
 	isLeader := s.raft.State() == raft.Leader
 
